@@ -333,3 +333,38 @@ def shared_fixed_not_cut(ctx: Ctx) -> None:
     from . import C02 as _c02
     from .common import support
     support(ctx, [_c02.r3], {"Allocation.refine", "Allocation.must_be_refined", "Allocation.griddify"})
+
+
+@rule("C10", "R9.solver-failure-not-silenced", "PAIRING",
+      "a solve of the global model either lets GEKKO raise on failure (no debug=0) or, where the failure is silenced (debug=0, "
+      "the iteration-by-iteration visualising loop), the application status is read afterwards in the same block before "
+      "anything else is decided: an allocation extracted from a failed solve is the last iterate, which is not feasible "
+      "(over-full cells, shared fixed cells) -- seeded change C10-9", floor=2)
+def r9_solver_failure(ctx: Ctx) -> None:
+    n = 0
+    for f in ctx.model.all_functions(include_inlined=True):
+        if f.module.relpath != GLB:
+            continue
+        for node in ast.walk(f.node):
+            for field in ("body", "orelse", "finalbody"):
+                stmts = getattr(node, field, None)
+                if not isinstance(stmts, list):
+                    continue
+                for i, st in enumerate(stmts):
+                    if isinstance(st, (ast.If, ast.For, ast.While, ast.With, ast.Try, ast.FunctionDef, ast.ClassDef)):
+                        continue        # the call is looked at in the innermost statement list that holds it
+                    for c in ast.walk(st):
+                        if not (isinstance(c, ast.Call) and isinstance(c.func, ast.Attribute) and c.func.attr == "solve"
+                                and "gekko" in ast.unparse(c.func.value)):
+                            continue
+                        n += 1
+                        dbg = next((k.value for k in c.keywords if k.arg == "debug"), None)
+                        silenced = dbg is not None and not (isinstance(dbg, ast.Constant) and dbg.value not in (0, False, None))
+                        ctx.site(f.where, "solve of the global model", call=ast.unparse(c)[:60], failure_silenced=bool(silenced))
+                        if not silenced:
+                            continue
+                        later = stmts[i + 1:]
+                        if not any(isinstance(x, ast.Attribute) and x.attr == "APPSTATUS" for s_ in later for x in ast.walk(s_)):
+                            ctx.report(f.where, f"silenced-solve {norm_stmt(st)[:50]}", f"{f.qualname}: '{ast.unparse(c)[:60]}' silences a failed solve "
+                                       "(debug=0) and the status is not read afterwards: the last iterate is returned as the allocation", lineno=c.lineno)
+    ctx.require(n >= 2, f"solve calls of the global model fewer than confirmed ({n})")
